@@ -5,14 +5,15 @@ package main
 import (
 	"fmt"
 	"go/types"
+	"sort"
 	"strings"
 
 	"golang.org/x/tools/go/ssa"
 )
 
-const maxInlineInstrs = 400
+const maxInlineInstrs = 60
 
-func (fe *FuncEnc) maxInlineDepth() int { return 3 }
+func (fe *FuncEnc) maxInlineDepth() int { return 2 }
 
 // callNames: the names a call site answers to in specs.
 func callNames(c ssa.CallInstruction) []string {
@@ -59,7 +60,21 @@ func callNames(c ssa.CallInstruction) []string {
 	return ns
 }
 
+func debugName(v ssa.Value) string {
+	if refs := v.Referrers(); refs != nil {
+		for _, r := range *refs {
+			if d, ok := r.(*ssa.DebugRef); ok && d.X == v && !d.IsAddr && d.Object() != nil {
+				return d.Object().Name()
+			}
+		}
+	}
+	return ""
+}
+
 func funcValueName(v ssa.Value) string {
+	if n := debugName(v); n != "" {
+		return n
+	}
 	switch x := v.(type) {
 	case *ssa.UnOp:
 		if fa, ok := x.X.(*ssa.FieldAddr); ok {
@@ -94,6 +109,19 @@ func funcValueName(v ssa.Value) string {
 	return ""
 }
 
+// sortedCalls: call sites in source order (position, then encoding order).
+func (fe *FuncEnc) sortedCalls() []*CallSite {
+	cs := append([]*CallSite{}, fe.calls...)
+	sort.SliceStable(cs, func(i, j int) bool {
+		pi, pj := cs[i].instr.Pos(), cs[j].instr.Pos()
+		if pi == pj || pi == 0 || pj == 0 {
+			return false
+		}
+		return pi < pj
+	})
+	return cs
+}
+
 func (fe *FuncEnc) findCall(target string) (*CallSite, error) {
 	name := target
 	ord := -1
@@ -102,7 +130,7 @@ func (fe *FuncEnc) findCall(target string) (*CallSite, error) {
 		name = target[:i]
 	}
 	var ms []*CallSite
-	for _, cs := range fe.calls {
+	for _, cs := range fe.sortedCalls() {
 		if contains(cs.names, name) {
 			ms = append(ms, cs)
 		}
@@ -131,7 +159,7 @@ func (fe *FuncEnc) findCalls(target string) ([]*CallSite, error) {
 		return []*CallSite{cs}, nil
 	}
 	var ms []*CallSite
-	for _, cs := range fe.calls {
+	for _, cs := range fe.sortedCalls() {
 		if contains(cs.names, target) {
 			ms = append(ms, cs)
 		}
@@ -212,6 +240,9 @@ func (eng *Engine) contractFor(fn *ssa.Function) *FuncContract {
 	// generic instantiation: try origin
 	if o := fn.Origin(); o != nil && o != fn {
 		return eng.contractFor(o)
+	}
+	if d, ok := eng.specs.pkgDefault[p]; ok {
+		return d
 	}
 	return nil
 }
@@ -596,6 +627,9 @@ func (fr *Frame) applyContract(c ssa.CallInstruction, ci calleeInfo, st *State, 
 	// ensures
 	env := fr.contractEnv(c, ci, st, pre, args, recv, rets)
 	for _, en := range fc.Ensures {
+		if hasCallref(en.Expr) {
+			continue // clause about the callee's internal calls: meaningful only when verifying the callee itself
+		}
 		f, err := env.evalBool(en.Expr)
 		if err != nil {
 			fe.note("contract of %s: %v", ci.name, err)
@@ -609,6 +643,21 @@ func (fr *Frame) applyContract(c ssa.CallInstruction, ci calleeInfo, st *State, 
 		fe.assumedCallees[ci.name+" (trusted contract, body not verified)"] = true
 	}
 	return rets
+}
+
+func hasCallref(e *SExpr) bool {
+	if e == nil {
+		return false
+	}
+	if e.Op == "callref" {
+		return true
+	}
+	for _, a := range e.Args {
+		if hasCallref(a) {
+			return true
+		}
+	}
+	return false
 }
 
 func unionProps(a, b []string) []string {
